@@ -70,6 +70,196 @@ MANIFEST = dict(
     ref='DESIGN.md §3 C05')
 
 
+# ----------------------------------------------------------------- callables raising non-glom exceptions
+# (C05 only: placed into the `fns` table of interp_common.build under the callable's name before the
+# spec is built, so interp_common itself does not know these kinds)
+class OwnStrError(Exception):
+    """a user exception class that defines its own __str__"""
+    def __str__(self):
+        return 'own-str<%s>' % ', '.join(map(repr, self.args))
+
+
+class MultiLineStrError(Exception):
+    """a user exception whose own __str__ spans several lines (blank and caret-only lines included)"""
+    def __str__(self):
+        return 'own first line %r\n\n      ^^^^\n  ~~~\nown last line' % (self.args,)
+
+
+class OwnStrKeyError(KeyError):
+    """subclass of a builtin that has a __str__ of its own (KeyError), overriding it again"""
+    def __str__(self):
+        return 'lookup of %s failed' % '/'.join(map(str, self.args))
+
+
+class NeedsArgsError(Exception):
+    """required constructor arguments that are not kept in .args: GlomError.wrap cannot re-create it"""
+    def __init__(self, code, what):
+        super().__init__()
+        self.code, self.what = code, what
+
+    def __str__(self):
+        return 'needs-args %s %s' % (self.code, self.what)
+
+
+class ChangesArgsError(Exception):
+    """re-creation from .args changes .args: GlomError.wrap gives the original object back"""
+    def __init__(self, *a):
+        super().__init__('tagged', *a)
+
+
+def raise_kind(kind):
+    if kind == 'x_key':
+        raise KeyError('k')
+    if kind == 'x_key_lookup':
+        return {}['missing key']                      # KeyError raised by Python itself
+    if kind == 'x_key2':
+        raise KeyError('k', 2)
+    if kind == 'x_index':
+        raise IndexError('idx', 3)
+    if kind == 'x_index_lookup':
+        return [][3]
+    if kind == 'x_os':
+        raise OSError(2, 'x')                         # FileNotFoundError: '[Errno 2] x'
+    if kind == 'x_os_file':
+        raise OSError(13, 'denied', 'some/file.txt')  # .args keeps two of the three
+    if kind == 'x_unicode':
+        raise UnicodeDecodeError('utf-8', b'\xff\xfe', 0, 1, 'bad byte')     # five required constructor args
+    if kind == 'x_unicode_real':
+        return b'\xff\xfe'.decode('utf-8')
+    if kind == 'x_ownstr':
+        raise OwnStrError('p', 1)
+    if kind == 'x_ownstr_noargs':
+        raise OwnStrError()
+    if kind == 'x_multistr':
+        raise MultiLineStrError('q')
+    if kind == 'x_ownstr_key':
+        raise OwnStrKeyError('a', 'b')
+    if kind == 'x_stopiter':
+        raise StopIteration('done')
+    if kind == 'x_syntax':
+        raise SyntaxError('bad syntax', ('file.py', 3, 5, 'some text\n'))
+    if kind == 'x_needs_args':
+        raise NeedsArgsError(7, 'seven')
+    if kind == 'x_changes_args':
+        raise ChangesArgsError('payload')
+    raise TypeError('unknown kind ' + kind)
+
+
+# wrappable: glom() raises GlomError.wrap(<class>) -- its message must carry the trace
+X_WRAPPABLE = ['x_key', 'x_key_lookup', 'x_key2', 'x_index', 'x_index_lookup', 'x_os', 'x_os_file', 'x_unicode',
+               'x_unicode_real', 'x_ownstr', 'x_ownstr_noargs', 'x_multistr', 'x_ownstr_key', 'x_stopiter', 'x_syntax']
+# not wrappable: the error that leaves glom() is the user's own object (outside the property: see ASSUMPTIONS)
+X_UNWRAPPABLE = ['x_needs_args', 'x_changes_args']
+
+
+class XFn(ic.Fn):
+    """catalogue callable that raises a non-glom exception whatever it is called with"""
+    def __call__(self, *args, **kwargs):
+        return raise_kind(self.kind)
+
+
+def prepare(j, fns):
+    """put the objects of the C05-only kinds (`{'k': 'fn', 'kind': 'x_…'}`) into the table `fns`, where
+    interp_common.build / dec find them under their name"""
+    if isinstance(j, list):
+        for x in j:
+            prepare(x, fns)
+        return
+    if not isinstance(j, dict):
+        return
+    kind = j.get('kind') if j.get('k') == 'fn' else (j['fn'][1] if isinstance(j.get('fn'), list) and len(j['fn']) == 2 else None)
+    if isinstance(kind, str) and kind.startswith('x_'):
+        name = j['name'] if j.get('k') == 'fn' else j['fn'][0]
+        if name not in fns:
+            if kind == 'x_check':
+                fns[name] = build_check(j, fns)
+            else:
+                fns[name] = XFn(name, kind)
+    for key_, v in j.items():
+        if isinstance(v, (dict, list)):
+            prepare(v, fns)
+
+
+def build(j, fns):
+    prepare(j, fns)
+    return ic.build(j, fns)
+
+
+def build_check(j, fns):
+    """Check(spec, type= / equal_to= / instance_of=, default=)"""
+    import glom as G
+    kw = {}
+    if j.get('type'):
+        kw['type'] = ic.TYPES[j['type']]
+    if j.get('instance_of'):
+        kw['instance_of'] = ic.TYPES[j['instance_of']]
+    if 'equal_to' in j:
+        kw['equal_to'] = ic.dec(j['equal_to'], fns)
+    if j.get('dflt') is not None:
+        kw['default'] = build(j['dflt'], fns)
+    if j.get('spec') is not None:
+        return G.Check(build(j['spec'], fns), **kw)
+    return G.Check(**kw)
+
+
+class C05Gen(Gen):
+    """the shared generator; every leaf position is, with probability `p_raise`, a callable that raises a
+    non-glom exception of a class with its own __str__ / constructor shape"""
+    p_raise = 0.0
+
+    def xfn(self, kinds=None):
+        r = self.rng
+        pool = kinds or (X_WRAPPABLE * 4 + X_UNWRAPPABLE)
+        return self.fn(r.choice(pool))
+
+    def leaf(self, v):
+        if self.rng.random() < self.p_raise:
+            return self.xfn()
+        return Gen.leaf(self, v)
+
+    def check(self, spec, dflt, **kw):
+        self.nfn += 1
+        j = {'k': 'fn', 'name': 'chk%d' % self.nfn, 'kind': 'x_check', 'spec': spec, 'dflt': dflt}
+        j.update(kw)
+        return j
+
+
+def leaf_positions(j, path=(), out=None):
+    """paths of the leaf specs (callables, T expressions, str paths) in spec position"""
+    if out is None:
+        out = []
+    if isinstance(j, dict):
+        if j.get('k') in ('fn', 't', 'str') and j.get('kind') != 'x_check':
+            out.append(path)
+            return out
+        for key_, v in j.items():
+            if key_ in ('v', 'scope', 'skip', 'dflt_factory', 'skip_exc', 'defaults', 'base', 'equal_to'):
+                continue
+            if key_ in ('es',):
+                for i, pair in enumerate(v):
+                    leaf_positions(pair[1], path + (key_, i, 1), out)     # dict values, not the keys
+                continue
+            if isinstance(v, (dict, list)):
+                leaf_positions(v, path + (key_,), out)
+    elif isinstance(j, list):
+        for i, x in enumerate(j):
+            if isinstance(x, (dict, list)):
+                leaf_positions(x, path + (i,), out)
+    return out
+
+
+def replace_at(j, path, new):
+    if not path:
+        return new
+    if isinstance(j, dict):
+        c = dict(j)
+        c[path[0]] = replace_at(j[path[0]], path[1:], new)
+        return c
+    c = list(j)
+    c[path[0]] = replace_at(j[path[0]], path[1:], new)
+    return c
+
+
 def trace_run(target, spec, width=None):
     """run the real glom recording every scope[glom] call through scope={glom.glom: tracer}"""
     import glom as G
@@ -122,8 +312,8 @@ def trace_run(target, spec, width=None):
         except BaseException as se:      # the error has no message at all
             text = ''
             str_failed = type(se).__name__
-        if str_failed is None and not hasattr(exc, '_target_spec_trace'):
-            return None
+        # (an error whose str() is not GlomError's -- no `_target_spec_trace` is set -- still has a message:
+        # the property is evaluated on it)
         root_frame = exc._scope          # the root call's frame
         wrapped = getattr(exc, '_GlomError__wrapped', None)
         # frame python-id -> frame index (root scope = 0, root call = 1, traced calls = 2…)
@@ -160,11 +350,29 @@ def trace_run(target, spec, width=None):
         ev_out.append(['err', eid(wrapped)])
         return {'events': ev_out, 'errors': [[n, t] for n, t in errs.values()], 'root_error': eid(wrapped),
                 'width': core.TRACE_WIDTH,
-                'impl': {'trace': getattr(exc, '_target_spec_trace', ''), 'message': text,
+                'impl': {'trace': getattr(exc, '_target_spec_trace', ''), 'message': text, 'msg_width': core.TRACE_WIDTH,
+                         'raised': type(exc).__name__,
                          'str_failed': str_failed or ('bbrepr:' + repr_failed[0] if repr_failed else None)}}
-    except Exception:
-        return None
+    except Exception as exc:
+        # the error that left glom() is not a GlomError: GlomError.wrap gave the original object back
+        return {'unwrapped': type(exc).__name__, 'recreatable': recreatable(exc), 'message': safe_str(exc)}
     return None
+
+
+def recreatable(e):
+    """can an exception object be re-created from its .args (what wrapping it needs)?"""
+    try:
+        c = type(e)(*e.args)
+        return c.args == e.args
+    except Exception:
+        return False
+
+
+def safe_str(e):
+    try:
+        return str(e)
+    except BaseException as se:
+        return '<str() raised %s>' % type(se).__name__
 
 
 WIDTHS = [50, 60, 80, 110, 200]
@@ -312,7 +520,7 @@ def run_impl(case):
     import glom as G
     fns = {}
     target = ic.dec(case['target'], fns)
-    spec = build_selfref(case['selfref']) if case.get('selfref') else ic.build(case['spec'], fns)
+    spec = build_selfref(case['selfref']) if case.get('selfref') else build(case['spec'], fns)
     if case.get('stale_first'):
         try:
             G.glom(target, spec)
@@ -326,6 +534,14 @@ def run_impl(case):
     out = {k: v for k, v in case.items() if not k.startswith('impl') and k != '_gen'}
     if rec is None:
         out.update({'events': [], 'errors': [], 'root_error': 0, 'impl': {'trace': '', 'no_failure': True}})
+        return out
+    if 'unwrapped' in rec:
+        # glom() raised the user's own exception object.  Outside the property when the object could not be
+        # wrapped (its class cannot be re-created from .args); an error that could have been wrapped and
+        # was not has a message without a trace
+        out.update({'events': [], 'errors': [], 'root_error': 0,
+                    'impl': {'trace': '', 'unwrapped': rec['unwrapped'], 'message': rec['message'],
+                             'could_wrap': rec['recreatable']}})
         return out
     out.update(rec)
     w = case.get('width')
@@ -386,7 +602,7 @@ def _rerender(target, spec, width, rec):
             return None
         out = dict(rec)
         out['width'] = width
-        out['impl'] = {'trace': text, 'message': rec['impl'].get('message')}
+        out['impl'] = dict(rec['impl'], trace=text)     # the message (rendered at the default width) stays
         return out
     return None
 
